@@ -1423,14 +1423,18 @@ fn gen_stream(thorough: bool, r: &mut Rng, emit: Emit) {
         let nsz = r.range(0, 30);
         let sizes: Vec<String> = (0..nsz).map(|_| match r.below(6) { 0 => 1u64, 1 => 32768, 2 => 40000, 3 => r.range(1, 100), 4 => if r.chance(1, 6) { 0 } else { 7 }, _ => r.range(1, 40000) }.to_string()).collect();
         let sz = if sizes.is_empty() { "-".to_string() } else { sizes.join(",") };
-        // every interesting fault position: first read, around the buffer boundary, the final (empty) read
-        let fail = match r.below(3) { 0 => "-".to_string(), _ => format!("{}:{}", r.range(0, nsz + 4), r.below(8)) };
+        // every interesting fault position (a byte offset): before the first byte, inside, around
+        // multiples of 32 KiB, after the last byte (the read that would report end-of-stream), beyond
+        let l = len as u64;
+        let fail = match r.below(3) { 0 => "-".to_string(), _ => format!("{}:{}", match r.below(9) {
+            0 => 0, 1 => l, 2 => l.saturating_sub(1), 3 => l + 1 + r.below(10), 4 => 32768 * r.range(1, 3), 5 => 32768 * r.range(1, 3) - 1,
+            6 => 32768 * r.range(1, 3) + 1, 7 => r.range(0, 40), _ => r.range(0, l.max(1)) }, r.below(8)) };
         emit(&format!("stream {} {} {}", hexenc(&data), sz, fail));
     }
-    // fault at every read index of one scripted reader
+    // a fault at every piece boundary of one scripted reader, and one byte to either side
     let data = rand_payload(r, 70000);
-    for i in 0..12 {
-        for k in [0u64, 5, 7] { emit(&format!("stream {} 1,2,32768,32768,100,5000 {}:{}", hexenc(&data), i, k)); }
+    for f in [0u64, 1, 2, 3, 4, 32770, 32771, 32772, 65538, 65539, 65540, 65638, 65639, 65640, 69999, 70000, 70001] {
+        for k in [0u64, 5, 7] { emit(&format!("stream {} 1,2,32768,32768,100,5000 {}:{}", hexenc(&data), f, k)); }
     }
     // files
     for len in [0usize, 1, 100, 4096, 4097, 32768, 32769, 70000] {
